@@ -15,6 +15,8 @@ const PkgID__SUFFIX__ = "__PKGID__"
 type (
 	S__SUFFIX__ = obj.Obj
 	T__SUFFIX__ = obj.Obj
+	// N is convertible to, but not assignable from, what NewV returns
+	N__SUFFIX__ obj.Obj
 )
 
 func mk__SUFFIX__(sym string, args []any) *obj.Obj { return obj.Make(PkgID__SUFFIX__+"."+sym, args) }
